@@ -263,6 +263,21 @@ def load_known():
     return json.load(open(p))
 
 
+def run_witnesses(ids):
+    """Run findings/witnesses.py for the given ids on the tree under test; id -> (HOLDS|FAILS, detail)."""
+    if not ids:
+        return {}
+    env = dict(os.environ, PYTHONPATH=REPO, PYTHONHASHSEED="0", PYTHONDONTWRITEBYTECODE="1")
+    p = subprocess.run(["timeout", "300", PY, "-B", os.path.join(ROOT, "findings", "witnesses.py")] + list(ids),
+                       cwd=tempfile.gettempdir(), env=env, stdout=subprocess.PIPE, stderr=subprocess.DEVNULL, text=True)
+    res = {}
+    for ln in p.stdout.splitlines():
+        m = re.match(r"(\w+) (HOLDS|FAILS) (.*)", ln)
+        if m:
+            res[m.group(1)] = (m.group(2), m.group(3)[:300])
+    return res
+
+
 def write_replay(prop, payload):
     d = os.path.join(ROOT, "replay")
     os.makedirs(d, exist_ok=True)
@@ -450,15 +465,26 @@ def _run(prop, tier, a, mod, out, workdir, t_start):
     log("impl %.1fs model %.1fs compared=%d agree=%d skipped=%d oracle_checked=%d nontrivial=%d" %
         (stats["impl_s"], stats["model_s"], stats["compared"], stats["agree"], stats["skipped_oracle_domain"],
          stats["oracle_checked"], len(stats["nontrivial"])))
-    # known findings replay
+    # known findings: replay the recorded witnesses on the tree under test
     known = load_known()
+    lines = []
+    wit = run_witnesses([k["id"] for k in known.get("open", []) + known.get("fixed", []) if k["property"] == prop])
     for kf in known.get("open", []):
         if kf["property"] != prop:
             continue
         n = out.known.get(kf["id"], 0)
-        log("KNOWN-FINDING: property=%s %s [%s; %d failing inputs of this class in this run]" %
-            (prop, kf["what"], kf["id"], n))
-    lines = []
+        if wit.get(kf["id"], ("FAILS", ""))[0] == "FAILS" or n:
+            log("KNOWN-FINDING: property=%s %s [%s; witness %s; %d failing inputs of this class in this run]" %
+                (prop, kf["what"], kf["id"], wit.get(kf["id"], ("?", ""))[0].lower(), n))
+    for kf in known.get("fixed", []):
+        if kf["property"] != prop:
+            continue
+        st = wit.get(kf["id"])
+        if st and st[0] == "FAILS":
+            path = write_replay(prop, {"property": prop, "obligation": "regression of repaired defect " + kf["id"], "case": None,
+                                       "witness": "findings/witnesses.py " + kf["id"], "detail": kf["what"] + " :: " + st[1],
+                                       "seed": a.seed})
+            lines.append("VIOLATION property=%s replay=%s" % (prop, path))
     # 3. decide
     corr_ok = not dis
     obligations.append({"name": "correspondence:%s" % getattr(mod, "ENGINE", prop), "kind": "correspondence",
